@@ -112,6 +112,12 @@ TRJ ==
                   /\ s' = RJFaultNext(w2)
   /\ UNCHANGED << cfg, fr >> /\ Adv
 
+TWCL ==
+  /\ Is("WCL")
+  /\ s.wild \/ WCLAllowed(s, Ev.err, Ev.obs)
+  /\ s' = IF s.wild THEN s ELSE WCLNext(s)
+  /\ UNCHANGED << cfg, fr >> /\ Adv
+
 TSRD == /\ Is("SRD") /\ Ev.err.cls = "nil" /\ UNCHANGED << cfg, fr, s >> /\ Adv
 
 TPanic == /\ Is("PANIC") /\ PanicAllowed(s)
@@ -119,7 +125,7 @@ TPanic == /\ Is("PANIC") /\ PanicAllowed(s)
 
 TInit == l = 1 /\ cfg = [role |-> "server"] /\ fr = << >> /\ s = S0
 
-TNext == TReset \/ TJA \/ TRJ \/ TSRD \/ TPanic \/ TNR \/ TRD \/ TRA \/ TRM
+TNext == TReset \/ TJA \/ TRJ \/ TWCL \/ TSRD \/ TPanic \/ TNR \/ TRD \/ TRA \/ TRM
 
 TSpec == TInit /\ [][TNext]_tvars
 
